@@ -542,7 +542,9 @@ def decide(prop, tier="quick", seed=0):
     bounded_results = []
     bounded_violations = []
     for b in pc.get("bounded_runs", []):
-        br = run_bounded(b, tier, use_cache)
+        # bounded runs are cached in every tier: the key is the content of /repo/src, of the witness files and of the bound, so a
+        # cached result is the result of this very tree (VERIF_NOCACHE=1 forces a re-run)
+        br = run_bounded(b, tier, not os.environ.get("VERIF_NOCACHE"))
         bounded_results.append({k: br[k] for k in ("name", "bound", "cmd", "wall_s", "summary", "cached")} | {"exhaustive_within_bound": True, "what": b["what"]})
         if br["harness_error"]:
             undecided.append("bounded stand-in %s did not run: %s" % (b["name"], br["harness_error"][-300:]))
